@@ -675,6 +675,11 @@ func (r *posRunner) classifyPanic(br chain.BlockResult, b chain.Block, before ch
 		st := posmodel.FromView(r.cur)
 		r.report("C05", "EndBlock-panic|"+r.setContext(st), what)
 		r.report("C06", "EndBlock-panic|"+r.setContext(st), what)
+		// a jailed validator that has consensus power (an entry in the staked-power index) is
+		// what C09 forbids; EndBlock returning nothing is how it shows
+		if strings.Contains(r.setContext(st), "index-entry-for-jailed") {
+			r.report("C09", "EndBlock-panic|"+r.setContext(st), what)
+		}
 	default:
 		r.report("C02", "Commit-panic", what)
 	}
